@@ -86,7 +86,7 @@ static std::string run_case(const Case& cs, long* iterations_out = nullptr, long
 
 static void explore(Result& R) {
     const bool th = R.args.thorough(); long cases = 0, iters = 0, files = 0, rows = 0, unit = 0;
-    std::vector<double> dts = {0.1, 0.01, 0.3, 0.7, 1e-3, 1e-7}; std::vector<double> sdt = {1, 1.5, 2, 7.0 / 3.0, 3, 10}; std::vector<double> ts = {0.5, 1, 2.5, 3, 7};
+    std::vector<double> dts = {0.1, 0.01, 0.3, 0.7, 1e-3, 1e-7, 1e-11, 0.125};   /* incl. a step far below the absolute tolerances in the code, and a binary-exact step (accumulated time lands exactly on the duration) */ std::vector<double> sdt = {1, 1.5, 2, 7.0 / 3.0, 3, 10}; std::vector<double> ts = {0.5, 1, 2.5, 3, 7};
     if (th) { sdt.push_back(25); ts.push_back(10); dts.push_back(0.07); }
     for (double dt : dts) for (double a : sdt) for (double b : ts) for (int pop = 0; pop < 5; pop++) for (int mem = 0; mem < 2; mem++) {
         if (!th && mem == 1 && pop != 0 && pop != 3) continue;
